@@ -366,6 +366,7 @@ def run_inst(run):
     per = cx.n(420, 6000)
     total = n_acc = n_pairs = 0
     accepted, pairs = {}, {}
+    verdicts = {}
     base_k = 1 + 1000 * (cx.seed % 1000 if isinstance(cx.seed, int) else 0)
     for si in range(nsch):
         sch = Schema(rng, base_k + si)
@@ -397,11 +398,13 @@ def run_inst(run):
                 c = unhex(r[1])
                 acc[x] = c
                 cx.count(("inst-acc", si, x), True, "val:instid:accepted:%s" % mk)
+                verdicts["ok"] = verdicts.get("ok", 0) + 1
                 if not expect_prefixes(sch, c):
                     cx.fail("val", "the canonical instance-identifier does not carry a module prefix exactly on the first node and where the module changes",
                             {"type": d, "value_hex": hexs(x), "canonical_hex": r[1], "law": "inst_canonical_prefixes"})
             else:
                 cx.count(("inst-rej", si, x), True, "val:instid:rejected:%s:%s" % (r[1] if len(r) > 1 else "?", mk))
+                verdicts[r[1] if len(r) > 1 else "?"] = verdicts.get(r[1] if len(r) > 1 else "?", 0) + 1
         n_acc += len(acc)
         # hints, LYB, canonical stored again
         cases = []
@@ -454,5 +457,5 @@ def run_inst(run):
             "+ instanceid_path2str; the model reads the schema serialisation the harness checks against its lysc_node trees): %d generated schemas (two modules, "
             "augments, config / state lists with 1-3 keys, key-less lists, leaf-lists), %d paths (valid walks with keys in any order, both quote characters, number "
             "tokens, positions, blanks inside predicates; prefix / predicate / byte-level deviations, see the module doc), %d accepted; every hint set on a sample, "
-            "values as LYB, the canonical form stored again, cmp / leaf-list order over %d pairs; law inst_canonical_prefixes on every accepted value"
-            % (nsch, total, n_acc, n_pairs))
+            "values as LYB, the canonical form stored again, cmp / leaf-list order over %d pairs; law inst_canonical_prefixes on every accepted value; verdicts: %s"
+            % (nsch, total, n_acc, n_pairs, ", ".join("%s %d" % kv for kv in sorted(verdicts.items()))))
